@@ -116,6 +116,21 @@ func init() {
 		}
 		panic(&pathEnd{kind: "infeasible"})
 	})
+	reg(V+"Guard", func(in *Interp, fn *ssa.Function, a []Value, pos token.Pos) Value {
+		c := a[0].(*Term)
+		if in.Concrete != nil || c.Op == "bool" {
+			return c
+		}
+		if in.World.Guard != nil {
+			in.unsupp("nested vh.Guard")
+		}
+		in.World.Guard = c
+		return True
+	})
+	reg(V+"EndGuard", func(in *Interp, fn *ssa.Function, a []Value, pos token.Pos) Value {
+		in.World.Guard = nil
+		return nil
+	})
 	reg(V+"NewCtx", func(in *Interp, fn *ssa.Function, a []Value, pos token.Pos) Value {
 		cd := &CtxData{W: in.World, Time: a[0].(Time), Height: a[1].(*Term), ChainID: a[2]}
 		return ctxVal(cd)
